@@ -28,21 +28,22 @@ Fixpoint elim (n : nat) (rows : list (list Q)) : option (list (list Q)) :=
       end
   end.
 
-Definition zdot (a b : list Z) : Z := fold_right Z.add 0%Z (map (fun xy => (fst xy * snd xy)%Z) (combine a b)).
-Definition col (M : list (list Z)) (j : nat) : list Z := map (fun r => nth j r 0%Z) M.
-(* A = (k+1) * rows - column sums *)
+Local Open Scope Z_scope.
+Definition vsub (a b : list Z) : list Z := map (fun xy => fst xy - snd xy) (combine a b).
+Definition vadd (a b : list Z) : list Z := map (fun xy => fst xy + snd xy) (combine a b).
+(* row of A for the point p:  (k+1) * (p - mean) = sum over the neighbourhood r of (p - r) *)
 Definition centred (nb : list point) (d : nat) : list (list Z) :=
-  let n := Z.of_nat (length nb) in
-  let sums := map (fun j => fold_right Z.add 0%Z (col nb j)) (seq 0 d) in
-  map (fun p => map (fun xs => (n * fst xs - snd xs)%Z) (combine p sums)) nb.
+  map (fun p => fold_right vadd (repeat 0 d) (map (vsub p) nb)) nb.
+(* G = A^T A *)
 Definition gram (A : list (list Z)) (d : nat) : list (list Z) :=
-  map (fun i => map (fun j => zdot (col A i) (col A j)) (seq 0 d)) (seq 0 d).
+  map (fun i => map (fun j => fold_right Z.add 0 (map (fun r => nth i r 0 * nth j r 0) A)) (seq 0 d)) (seq 0 d).
+Local Close Scope Z_scope.
 
 (* (k+1)^2 z^T G^-1 z as a rational; None when G is singular *)
 Definition ell_value (d : nat) (p : point) (l : list point) (q : point) : option Q :=
   let nb := p :: l in
   let G := gram (centred nb d) d in
-  let z := map (fun ab => (fst ab - snd ab)%Z) (combine q p) in
+  let z := vsub q p in
   let M := map (fun gr => map inject_Z (fst gr ++ [snd gr])) (combine G z) ++ [map inject_Z (z ++ [0%Z])] in
   match elim d M with
   | Some [[s]] => Some (inject_Z (Z.of_nat (length nb) * Z.of_nat (length nb)) * - s)
@@ -53,6 +54,11 @@ Definition ins_exact (d : nat) (p : point) (l : list point) : option Z :=
   else fold_right (fun q acc => match acc, ell_value d p l q with
                                 | Some n, Some v => Some (if Qle_bool v 1 then n + 1 else n)%Z
                                 | _, _ => None end) (Some 0%Z) l.
+
+(* the count as SVD-free replacement of the [ins] data of Model/GeoKnn.v (0 on singular neighbourhoods, which the
+   property excludes) *)
+Definition ins_x (d : nat) (D : Z) (p : point) (l : list point) : Z :=
+  match ins_exact d p l with Some n => n | None => 0%Z end.
 
 (* case = (d, k, points, inside-counts the harness derived from the implementation's SVD factors) *)
 Fixpoint ins_all (d k : nat) (pts ps : list point) (insl : list Z) : bool :=
@@ -85,7 +91,7 @@ Definition sv_term2 (D : Z) (p : point) (l : list point) : expr :=
     ESub (half_ln (EDiv (EZ dt) (EZ (u * u))))
          (ELn (EDiv (EAdd (EZ t) (ESqrt (EZ (t * t - 4 * dt)))) (EZ (2 * u)))).
 Definition corr2 (D : Z) (p : point) (l : list point) : expr :=
-  EAdd (ins_term (match ins_exact 2 p l with Some n => n | None => 0 end)) (sv_term2 D p l).
+  EAdd (ins_term (ins_x 2 D p l)) (sv_term2 D p l).
 Definition geo2_entropy_expr (D : Z) (k : nat) (pts : list point) : expr :=
   let N := Z.of_nat (length pts) in
   EAdd (EAdd (EAdd (ELn (EZ N)) (ELn (ball_expr 2)))
